@@ -7,6 +7,8 @@ options for a specific platform.
 
 import os
 
+from codebasin._detail import verif
+
 
 class Platform:
     """
@@ -33,6 +35,12 @@ class Platform:
         """
         Undefine a macro for this platform, if it's defined.
         """
+        if verif.ENABLED:
+            verif.emit(
+                "Undef",
+                name=identifier,
+                applied=identifier in self._definitions,
+            )
         if identifier in self._definitions:
             del self._definitions[identifier]
 
@@ -41,6 +49,12 @@ class Platform:
         Define a new macro for this platform, only if it's not already
         defined.
         """
+        if verif.ENABLED:
+            verif.emit(
+                "Define",
+                name=identifier,
+                applied=identifier not in self._definitions,
+            )
         if identifier not in self._definitions:
             self._definitions[identifier] = macro
 
@@ -49,6 +63,8 @@ class Platform:
         Define a new macro for this platform, only if it's not already
         defined.
         """
+        if verif.ENABLED:
+            verif.emit("Once", file=fn)
         if fn not in self._skip_includes:
             self._skip_includes.append(fn)
 
@@ -85,6 +101,15 @@ class Platform:
         do.
         """
         try:
+            if verif.ENABLED and filename in self.found_incl:
+                verif.emit(
+                    "Resolve",
+                    spelling=filename,
+                    system=bool(is_system_include),
+                    fromdir=this_path,
+                    result=self.found_incl[filename],
+                    memo_hit=True,
+                )
             return self.found_incl[filename]
         except KeyError:
             pass
@@ -101,8 +126,26 @@ class Platform:
             if os.path.isfile(test_path):
                 include_file = test_path
                 self.found_incl[filename] = include_file
+                if verif.ENABLED:
+                    verif.emit(
+                        "Resolve",
+                        spelling=filename,
+                        system=bool(is_system_include),
+                        fromdir=this_path,
+                        result=include_file,
+                        memo_hit=False,
+                    )
                 return include_file
 
         if include_file is None:
             self.found_incl[filename] = None
+            if verif.ENABLED:
+                verif.emit(
+                    "Resolve",
+                    spelling=filename,
+                    system=bool(is_system_include),
+                    fromdir=this_path,
+                    result=None,
+                    memo_hit=False,
+                )
             return None
